@@ -35,6 +35,52 @@ than `img.length < 2^63`:
    paddr, filesz, memsz, align, members = Spec.inSegment on the saved fields, data) values of the object
    `save` left (`RoundTrip.Reloaded`); `RoundTrip.load_state` adds to `load_eq_spec` the state facts
    "every section has its address set" and "resident data = file range ++ NUL".
+ * TABLES of a loaded file (Props/ComposeTables.lean, Lemmas/LoadedTables.lean): C02 composed with the accessor
+   families C08..C14.  `LoadedTables.of_load`: `load` of a well-formed image (eager/lazy, either stream kind) yields
+   an object in the state `LoadedFrom img` (every section in a state of the loader's per-section ladder `SecSt`);
+   `LoadedTables.secResident_ready` / `ComposeTables.loaded_section_ready`: for EVERY section index i,
+   `sections[i]->get_data()` against the real stream (`Inspect.secResident` = `TQ.settle`) keeps `LoadedFrom` and hands
+   the accessor a section `SecReady img i`: settled (the accessor models' own get_data() is the identity), of the
+   image's class, all ten header fields = the specification's, visible bytes = `C02.secFileBytes img i` (= the slice
+   of img at sh_offset of length sh_size for file-occupying types, empty for SHT_NULL/SHT_NOBITS), allocation
+   = size+1 bytes ending in NUL, C08's `Fits`, and for file-occupying types C07's `SecBuf.Inv` with content =
+   secFileBytes; i >= e_shnum: null pointer.  Per table kind, for ALL entry indices (out of range => refused), each
+   returning `LoadedFrom` for the object left behind (so the statements hold after any sequence of earlier queries):
+     strings_reports_spec   (any section, any type) inspect(.str i k) and C08's StrSec.getString = Spec.strAt
+                            (secFileBytes img i) k; `cstrAt_eq_strAt`: the loader-side and C08 reference lookups agree
+     symbols_reports_spec   [sh_type occupies file; sh_entsize = sizeof(Sym) of the class; `LinkOk`: (Elf_Half)sh_link
+                            names no section or a file-occupying one] get_symbols_num = sh_size/sizeof(Sym);
+                            get_symbol(k) = `specSymbol`: Spec.decodeSym of record k of the section's file bytes
+                            (ELF_ST_BIND/TYPE of st_info) + the name at st_name in the linked section's file bytes
+     reloc_reports_spec     [sh_type = SHT_REL / SHT_RELA; sizeof(Rel/Rela) <= sh_entsize] both classes, both byte
+                            orders: C11's Reloc.getEntry(k) = Spec.decodeEntry of the record at k*sh_entsize
+                            (r_offset, ELFn_R_SYM/TYPE of r_info, signed r_addend; 0 for REL), refused for
+                            k >= sh_size/sh_entsize
+     dynamic_reports_spec   [occupies file; sh_entsize = sizeof(Dyn); LinkOk] get_entries_num = min(size/sizeof(Dyn),
+                            first DT_NULL + 1) of the records decoded from the file bytes (Spec.entriesOf); get_entry(k)
+                            = Spec.dynGet (tag, d_un, string through the linked table's file bytes)
+     notes_reports_spec / segment_notes_reports_spec   [file bytes of the section / of the PT_NOTE segment's range =
+                            Spec.encodeNotes ns for notes with 32-bit fields; size <= 2^32-3] get_notes_num = |ns|,
+                            get_note(k) = k-th note (type, name, descriptor), refused for k >= |ns|; the segment theorem
+                            needs/keeps the segment side `SegsFrom` (`segs_of_load`, `segResident_ready`: a segment
+                            data request delivers the file range and keeps both invariants)
+     array_reports_spec     [occupies file; sh_size % w = 0, w in {4,8}] C14's Arr.getEntry(k) = Spec.tableEntry (k-th
+                            w-byte integer of the file bytes in the file's byte order)
+     versym_reports_spec    [occupies file; even size < 2^33; file byte order = host byte order] Versym.getEntry(k) =
+                            k-th half-word of the file bytes.  The host-order hypothesis cannot be discharged (open
+                            finding F4: the accessor has no convertor).
+   Accessor side = the accessor family's own model run as Model/Inspect.lean runs it on a loaded object
+   (str / symNum / sym / dynNum / dyn / noteNum / note / segNoteNum / segNote are `Inspect.inspect` queries, which
+   the `load` family's driver executes and check.py compares with the real accessors; relocation / array / versym
+   are the C11 / C14 models applied to the section `secResident` hands out).  Each theorem has an `example` on a
+   744-byte image (`ComposeTables.exImg`, built by an independent script) with all these tables.
+     tq_reports_spec        the relocation / array / versym read-outs also through C18's query model
+                            `TQ.runQuery o (.relGet | .arrGet | .versymGet …)` (the null-data guards of the C18 fixes
+                            are false on a ready file-occupying section: `tq_relGet_eq`)
+     section_query_keeps_segs   the section queries leave the segments alone (so `SegsFrom` survives them)
+   NOT done: modinfo, verneed/verdef, by-name/by-value symbol lookup, hash tables, relocation get_entry with symbol
+   resolution (their family theorems apply to the `SecReady` section in the same way); notes are characterised by
+   "bytes = encodeNotes ns" (no decoder-side characterisation: a malformed note section is C13.get_note_total / C01).
  * not covered by proof (correspondence only): that Model/IStream.lean is libstdc++ and that
    Model/Load.lean is ELFIO's loader (differential check below); images with an address
    translation table (C15).
@@ -61,9 +107,18 @@ THEOREMS = ["ElfioVerif.C02.layouts_eq_spec", "ElfioVerif.C02.shdr_fields_eq_spe
             "ElfioVerif.RoundTrip.wellFormed_of_holds",
             "ElfioVerif.RoundTrip.reload_of_holds",
             "ElfioVerif.Compose.saved_wellFormed",
-            "ElfioVerif.Compose.reload_reports_saved"]
-EXTRA_IMPORTS = ["ElfioVerif.Props.Compose"]
-SITES = ["conv", "is_sect_in_seg", "load_s", "sec32_load", "sec64_load", "seg32_load", "seg64_load"]
+            "ElfioVerif.Compose.reload_reports_saved",
+            "ElfioVerif.LoadedTables.of_load", "ElfioVerif.LoadedTables.secResident_ready",
+            "ElfioVerif.LoadedTables.segResident_ready", "ElfioVerif.LoadedTables.segs_of_load",
+            "ElfioVerif.ComposeTables.section_query_keeps_segs",
+            "ElfioVerif.ComposeTables.loaded_section_ready", "ElfioVerif.ComposeTables.cstrAt_eq_strAt",
+            "ElfioVerif.ComposeTables.strings_reports_spec", "ElfioVerif.ComposeTables.symbols_reports_spec",
+            "ElfioVerif.ComposeTables.reloc_reports_spec", "ElfioVerif.ComposeTables.dynamic_reports_spec",
+            "ElfioVerif.ComposeTables.notes_reports_spec", "ElfioVerif.ComposeTables.segment_notes_reports_spec",
+            "ElfioVerif.ComposeTables.array_reports_spec", "ElfioVerif.ComposeTables.versym_reports_spec",
+            "ElfioVerif.ComposeTables.tq_relGet_eq", "ElfioVerif.ComposeTables.tq_reports_spec"]
+EXTRA_IMPORTS = ["ElfioVerif.Props.Compose", "ElfioVerif.Props.ComposeTables"]
+SITES = ["conv", "is_sect_in_seg", "load_s", "sec32_load", "sec64_load", "seg32_load", "seg64_load", "seg32_range", "seg64_range"]
 RULE = ("well-formed images from the independent encoder tools/elfspec.py (random models: 1-9 sections, 0-4 "
         "segments, full-width field values, arbitrary table placement/order/gaps, overlapping segments, entry "
         "sizes >= record size) x {ELF32,ELF64} x {LSB,MSB} x {eager,lazy} x {string,file stream}; plus the bundled "
